@@ -100,6 +100,12 @@ pub struct RInst {
     pub loc: P,
     pub o: Orient,
     pub none_angle: bool,
+    /// whole turns added to the angle: the same orientation spelled -90 for 270, 450 for 90, 360 for 0
+    pub turns: i8,
+}
+/// Mostly the plain spelling; now and then one or two whole turns more or less
+pub fn gen_turns(src: &mut Src) -> i8 {
+    [0i8, 0, 0, 0, 0, 0, 0, 0, -1, 1, -2, 2][src.index(12)]
 }
 #[derive(Clone, Debug, PartialEq, Eq, Hash)]
 pub struct RPort {
@@ -462,7 +468,7 @@ pub fn gen_rawlib(src: &mut Src, o: &RawGenOpts) -> RLib {
                 let ni = if src.prob(1, 60) { src.usize_in(9, 40) } else { src.usize_in(0, 3) };
                 for k in 0..ni {
                     let t = if src.bool() { *targets.last().unwrap() } else { targets[src.index(targets.len())] };
-                    insts.push(RInst { name: gen_inst_name(src, k), target: t, loc: (src.signed(5000), src.signed(5000)), o: Orient::from_index(src.index(8)), none_angle: src.bool() });
+                    insts.push(RInst { name: gen_inst_name(src, k), target: t, loc: (src.signed(5000), src.signed(5000)), o: Orient::from_index(src.index(8)), none_angle: src.bool(), turns: gen_turns(src) });
                 }
                 // coincidences: an instance repeated verbatim; two instances sharing their location, or their
                 // location with x and y exchanged
@@ -548,10 +554,10 @@ pub fn gen_deep(src: &mut Src, base_opts: &RawGenOpts) -> (RLib, String) {
     let leaf: Option<usize> = (0..base).find(|i| m.cells[*i].has_layout);
     for d in 0..depth {
         let lower: Option<usize> = if d > 0 { Some(base + d - 1) } else { leaf };
-        let mut insts: Vec<RInst> = lower.map(|t| vec![RInst { name: "i0".into(), target: t, loc: (src.signed(500), src.signed(500)), o: Orient::from_index(src.index(8)), none_angle: src.bool() }]).unwrap_or_default();
+        let mut insts: Vec<RInst> = lower.map(|t| vec![RInst { name: "i0".into(), target: t, loc: (src.signed(500), src.signed(500)), o: Orient::from_index(src.index(8)), none_angle: src.bool(), turns: gen_turns(src) }]).unwrap_or_default();
         // a shared leaf: named by this level after the level below, which may name it too
         if let (Some(l), true) = (leaf, d > 0 && src.prob(1, 3)) {
-            let i = RInst { name: "shared".into(), target: l, loc: (src.signed(500), src.signed(500)), o: Orient::from_index(src.index(8)), none_angle: src.bool() };
+            let i = RInst { name: "shared".into(), target: l, loc: (src.signed(500), src.signed(500)), o: Orient::from_index(src.index(8)), none_angle: src.bool(), turns: gen_turns(src) };
             if src.prob(1, 4) {
                 insts.insert(0, i);
             } else {
@@ -624,7 +630,7 @@ pub fn build_named(m: &RLib, own_view_names: bool) -> Built {
                 layout.elems.push(raw::Element { net: s.net.clone(), layer: keys[s.layer], purpose: purpose_of(&m.layers[s.layer].purposes[s.purpose]), inner: s.geom.to_raw() });
             }
             for i in &c.insts {
-                let angle = if i.o.rot == 0 && i.none_angle { None } else { Some(i.o.angle()) };
+                let angle = if i.o.rot == 0 && i.turns == 0 && i.none_angle { None } else { Some(i.o.angle() + 360.0 * i.turns as f64) };
                 layout.insts.push(raw::Instance { inst_name: i.name.clone(), cell: ptrs[i.target].clone(), loc: raw::Point::new(i.loc.0 as isize, i.loc.1 as isize), reflect_vert: i.o.refl, angle });
             }
             for (s, p) in &c.annotations {
